@@ -58,16 +58,33 @@ func (j *fj) Count() uint64                   { return 0 }
 func (j *fj) Sync()                           {}
 func (j *fj) Chunks() journal.ChnksController { return nil }
 
-type fit struct{ pos journal.Pos }
+type fit struct {
+	pos journal.Pos
+	f   *Fact
+}
 
-func (i *fit) Close() error                                    { return nil }
-func (i *fit) Next(ctx context.Context)                        {}
-func (i *fit) Get(ctx context.Context) (records.Record, error) { return nil, io.EOF }
-func (i *fit) Pos() journal.Pos                                { return i.pos }
-func (i *fit) SetPos(p journal.Pos)                            { i.pos = p }
-func (i *fit) Release()                                        {}
-func (i *fit) SetBackward(bool)                                {}
-func (i *fit) CurrentPos() records.IteratorPos                 { return i.pos }
+func (i *fit) Close() error             { return nil }
+func (i *fit) Next(ctx context.Context) {}
+func (i *fit) Get(ctx context.Context) (records.Record, error) {
+	// one-shot gate: the first Get after GetGate was armed announces itself and waits for a go-ahead (a slow read)
+	if i.f != nil {
+		i.f.mu.Lock()
+		g := i.f.GetGate
+		i.f.GetGate = nil
+		i.f.mu.Unlock()
+		if g != nil {
+			ch := make(chan struct{})
+			g <- ch
+			<-ch
+		}
+	}
+	return nil, io.EOF
+}
+func (i *fit) Pos() journal.Pos                { return i.pos }
+func (i *fit) SetPos(p journal.Pos)            { i.pos = p }
+func (i *fit) Release()                        {}
+func (i *fit) SetBackward(bool)                {}
+func (i *fit) CurrentPos() records.IteratorPos { return i.pos }
 
 type Fact struct {
 	mu       sync.Mutex
@@ -76,6 +93,7 @@ type Fact struct {
 	Released map[string]int
 	NoSrc    bool               // the next GetJournals finds no sources
 	Gate     chan chan struct{} // when non-nil, GetJournals announces itself and waits for a go-ahead
+	GetGate  chan chan struct{} // when non-nil, the next iterator Get announces itself and waits for a go-ahead (one shot)
 }
 
 func NewFact() *Fact { return &Fact{Acquired: map[string]int{}, Released: map[string]int{}} }
@@ -99,9 +117,11 @@ func (f *Fact) GetJournals(ctx context.Context, tagsCond *lql.Source, maxLimit i
 func (f *Fact) GetJournal(ctx context.Context, src string) (tag.Set, journal.Journal, error) {
 	panic("not used")
 }
-func (f *Fact) Itearator(j journal.Journal, tmRange *model.TimeRange) journal.Iterator { return &fit{} }
-func (f *Fact) Release(jn string)                                                      { f.mu.Lock(); f.Released[jn]++; f.mu.Unlock() }
-func (f *Fact) Seq() int                                                               { f.mu.Lock(); defer f.mu.Unlock(); return f.seq }
+func (f *Fact) Itearator(j journal.Journal, tmRange *model.TimeRange) journal.Iterator {
+	return &fit{f: f}
+}
+func (f *Fact) Release(jn string) { f.mu.Lock(); f.Released[jn]++; f.mu.Unlock() }
+func (f *Fact) Seq() int          { f.mu.Lock(); defer f.mu.Unlock(); return f.seq }
 func (f *Fact) Net(n int) (acq, rel int) {
 	f.mu.Lock()
 	defer f.mu.Unlock()
@@ -668,7 +688,7 @@ type raceCase struct {
 }
 
 func runRace(c raceCase, verbose bool) {
-	sec := res.Section("race", "system-correspondence", "two concurrent GetOrCreate calls: cached idle id (free-running goroutines: exactly one is served, the other refused), the same uncached id with both calls parked between the two locked sections by the factory gate (lookup1, lookup2, create1, create2, insert1, insert2, release1, release2 — finding F16), and the control with two distinct uncached ids; outcomes and ring dumps vs the model's split steps")
+	sec := res.Section("race", "system-correspondence", "two concurrent GetOrCreate calls: cached idle id (free-running goroutines: exactly one is served, the other refused), the same uncached id with both calls parked between the two locked sections by the factory gate (lookup1, lookup2, create1, create2, insert1, insert2, release1, release2 — finding F16), the control with two distinct uncached ids, and a request naming a cached id while the previous request's Release is still committing (iterator Get parked): refused; outcomes and ring dumps vs the model's split steps")
 	f := NewFact()
 	p, pv := cursor.NewProviderVerif(f, 100, 60*time.Second, 300*time.Second)
 	names := map[cursor.Cursor]string{}
@@ -845,6 +865,76 @@ func runRace(c raceCase, verbose bool) {
 			acq, rel := f.Net(n)
 			r.steps = append(r.steps, stepRec{desc: fmt.Sprintf("closed j%d", n), lines: []string{fmt.Sprintf("closed %d", n)}, impl: []string{fmt.Sprintf("%d %d", acq, rel)}})
 		}
+	case "release-in-progress":
+		// request 1 is still inside Release (its commit reads the cursor: the iterator's Get is slow) when request 2
+		// names the same id: it must be refused — the cursor may only become available when its user is done with it
+		a, err := p.GetOrCreate(ctx, cursor.State{Query: queries[0]}, true)
+		if err != nil {
+			res.Fatal(args.Out, "race: %v", err)
+		}
+		names[a] = "j1"
+		add("get", fmt.Sprintf("get 0 0 0 0 ok 1 1 %d", a.Id()), "new 1")
+		gate := make(chan chan struct{}, 1)
+		f.mu.Lock()
+		f.GetGate = gate
+		f.mu.Unlock()
+		relDone := make(chan string, 1)
+		go func() { relDone <- vh.Recover(func() { p.Release(ctx, a) }) }()
+		var goAhead chan struct{}
+		select {
+		case goAhead = <-gate:
+		case pn := <-relDone:
+			// Release no longer reads the cursor at all: nothing to interleave with
+			f.mu.Lock()
+			f.GetGate = nil
+			f.mu.Unlock()
+			relDone <- pn
+		case <-time.After(20 * time.Second):
+			res.Fatal(args.Out, "race: Release neither finished nor reached the iterator")
+		}
+		if goAhead != nil {
+			type gr struct {
+				cu  cursor.Cursor
+				err error
+			}
+			got := make(chan gr, 1)
+			go func() {
+				cu, err := p.GetOrCreate(ctx, cursor.State{Id: a.Id(), Query: queries[0]}, true)
+				got <- gr{cu, err}
+			}()
+			var g gr
+			select {
+			case g = <-got:
+			case <-time.After(20 * time.Second):
+				res.Fatal(args.Out, "race: the concurrent request did not return")
+			}
+			out := "refused"
+			if g.err == nil {
+				out = "other"
+				if g.cu == a {
+					out = "hit 1"
+				}
+			}
+			add("lookup while Release is in progress", fmt.Sprintf("lookup %d 0 0 0", a.Id()), out+fmt.Sprintf(" id=%d", a.Id()))
+			if g.err == nil {
+				fail("interleaved", "a request obtained the cached cursor while the previous request's Release was still reading it (two users at a time)", out, "refused")
+			}
+			close(goAhead)
+			if g.err == nil && g.cu != nil {
+				defer func() { vh.Recover(func() { p.Release(ctx, g.cu) }) }()
+			}
+		}
+		select {
+		case pn := <-relDone:
+			out := "idle"
+			if pn != "" {
+				out = "panic"
+				fail("panic", "Release panicked: "+pn, pn, "no panic")
+			}
+			add("release", "release 1", out)
+		case <-time.After(20 * time.Second):
+			res.Fatal(args.Out, "race: Release did not finish")
+		}
 	default:
 		res.Note("race: unknown case kind %q", c.Kind)
 		return
@@ -869,6 +959,7 @@ func sectionRace() {
 	for i := 0; i < n/10+1; i++ {
 		runRace(raceCase{Kind: "same-uncached-id"}, false)
 		runRace(raceCase{Kind: "distinct-uncached-ids"}, false)
+		runRace(raceCase{Kind: "release-in-progress"}, false)
 	}
 	res.Done(res.Section("race", "", ""))
 }
